@@ -141,6 +141,16 @@ Definition deepcopy_model_prefix (s : store) (m : mdl) : store * mdl * (nat -> n
              (map (fun p => (fst p, ren (snd p))) (mreg m))
              (map (fun e => (ren (fst e), ren (snd e))) (medges m)), ren).
 
+(* a seeded variant (not the code): the views are rebuilt only when the Model object itself was renamed on restore.
+   Names are renamed PER OBJECT - the model by its class registry, each node by its own - so this is not enough. *)
+Definition deepcopy_model_cond (s : store) (m : mdl) : store * mdl * (nat -> nat) :=
+  if registered (reg s) (mcls m) (mname m) then deepcopy_model s m else deepcopy_model_prefix s m.
+
+(* _Node.__del__: a collected object gives its name back to its class registry (list.remove: first occurrence) *)
+Fixpoint remove_key (k : nat * str) (r : list (nat * str)) : list (nat * str) :=
+  match r with [] => [] | x :: r' => if key_eqb k x then r' else x :: remove_key k r' end.
+Definition release (s : store) (k : nat) (n : str) : store := mkStore (hp s) (next s) (remove_key (k, n) (reg s)).
+
 (* every node of the model is found under its own current name: what reset / with_state / stateful=False /
    return_states / name-keyed inputs and targets need (they all go through get_node or the keys of _node_registry) *)
 Definition named_ops_defined (h : heap) (m : mdl) : bool :=
